@@ -328,6 +328,27 @@ func c10SignVerifyCase(r *fw.R, t c10Type, k *c10Key, owner string, vi int, tupl
 		if err, _ := c10Verify(sig, k.DNSKEY, rrset); err != nil {
 			r.Fail("verify/own-signature", "Verify rejects Sign's output: %v; presentation %s; %s", err, v.what, c10Desc(k, sig, rrset))
 		}
+		// the same records as a validator gets them: out of a message that was sent compressed (their header then
+		// carries the RDLENGTH of the compressed form, shorter than what the canonical form needs)
+		cm := new(dns.Msg)
+		cm.SetQuestion(rrset[0].Header().Name, typ)
+		cm.Compress = true
+		cm.Answer = c10CopyRRset(rrset)
+		if wireb, perr := cm.Pack(); perr == nil {
+			um := new(dns.Msg)
+			if um.Unpack(wireb) == nil && len(um.Answer) == len(rrset) {
+				if err, _ := c10Verify(sig, k.DNSKEY, um.Answer); err != nil {
+					r.Fail("verify/from-compressed-message", "Verify rejects Sign's output over the same records unpacked from a compressed message: %v; presentation %s; %s", err, v.what, c10Desc(k, sig, um.Answer))
+				}
+				sig2 := &dns.RRSIG{KeyTag: sig.KeyTag, SignerName: sig.SignerName, Algorithm: sig.Algorithm, Inception: c10Inception, Expiration: c10Expiration, OrigTtl: v.origTTL}
+				if err := c10Sign(sig2, k.Priv, um.Answer); err != nil {
+					r.Fail("sign/from-compressed-message", "Sign fails over records unpacked from a compressed message: %v; %s", err, c10Desc(k, sig2, um.Answer))
+				} else if err, _ := c10RefVerify(k.DNSKEY, sig2, rrset); err != nil {
+					r.Fail("sign/from-compressed-message", "the reference verifier rejects a signature made over records unpacked from a compressed message: %v; %s", err, c10Desc(k, sig2, um.Answer))
+				}
+				r.Count("rrsets-through-a-compressed-message", 1)
+			}
+		}
 		if !thorough {
 			continue
 		}
